@@ -253,7 +253,8 @@ class NoteContainer(object):
         elif hasattr(notes, "name"):
             return self.remove_note(notes)
         else:
-            for x in notes:
+            # (a snapshot: the argument may be this container itself)
+            for x in list(notes):
                 self.remove_note(x)
             return self.notes
 
